@@ -12,6 +12,8 @@ R5 without a merge function exactly one entry is taken per call.
 R6 observation paths (mtbl_source_write, mtbl_merge's merge()) add every yielded entry and
    stop at the first refused add.
 R9 closure pairing (rules/closures.py): merge, dupsort and the heap comparison are each called with the closure registered with them.
+R10 heap discipline (rules/heaprule.py): for every heap size up to 5 (6 thorough) and every ordering, heapify / push / pop / replace keep the elements and the parent <= child invariant and pop / replace / peek return a minimum.
+D  rests on: C02 C02.R3 (the merge order is the order of the byte comparison) - re-run here as <id>.D.<rule>.
 """
 import re
 from .common import *
@@ -392,3 +394,10 @@ def run(ctx, res):
     from . import closures
     res.floor("C04.R9", 1)
     closures.check(ctx, res, "C04.R9", ('mtbl_merger_options', 'heap'))
+
+    # ---- heap discipline ----------------------------------------------------------------------
+    from . import heaprule
+    heaprule.check(ctx, res, "C04.R10")
+
+    # ---- properties this one rests on (re-run here, labelled <this>.D.<rule>) ------------------
+    depends(ctx, res, 'C02', ('C02.R3',), 'the merge order is the order of the byte comparison')
